@@ -994,10 +994,11 @@ type Conc struct {
 	Queries int
 	Reset   bool
 	Heavy   bool // thorough tier only
+	Preempt int  // 0: every interleaving is explored; k > 0: every schedule with at most k preemptions
 }
 
 func (c Conc) String() string {
-	return fmt.Sprintf("%s tree=%s prime=%v threads=%v reqOnly=%v queries=%d reset=%v", c.Name, c.Tree, c.Prime, c.Threads, c.ReqOnly, c.Queries, c.Reset)
+	return fmt.Sprintf("%s tree=%s prime=%v threads=%v reqOnly=%v queries=%d reset=%v preemptions<=%d(0=all)", c.Name, c.Tree, c.Prime, c.Threads, c.ReqOnly, c.Queries, c.Reset, c.Preempt)
 }
 
 func bits(kinds ...int) uint8 {
@@ -1008,7 +1009,13 @@ func bits(kinds ...int) uint8 {
 	return b
 }
 
-// ConcScenarios lists the scenarios of a tier.
+// ConcScenarios lists the scenarios of a tier. The lock operations of martian are the scheduling points and
+// the explorer has no partial-order reduction, so the number of interleavings is multinomial in the number
+// of lock operations per thread; the scenarios are sized for the tree *with* the missing locks and API
+// exemptions added (each adds scheduling points). Two-thread and small three-thread scenarios are explored
+// completely; the 3-4 thread scenarios of the design (2 traffic threads x 1-2 exchanges, query thread,
+// optional reset thread) are explored completely up to a preemption bound (2 quick, 3 thorough), and the
+// thorough tier adds complete explorations of mid-sized three-thread scenarios.
 func ConcScenarios(tier string) []Conc {
 	unmet := Msg{}
 	var out []Conc
@@ -1019,46 +1026,57 @@ func ConcScenarios(tier string) []Conc {
 		}
 		out = append(out, c)
 	}
+	pb := 2
+	if tier == "thorough" {
+		pb = 3
+	}
+	one := [][]Msg{{unmet}}
 	two := [][]Msg{{unmet}, {unmet}}
 	twoTwo := [][]Msg{{unmet, unmet}, {unmet, unmet}}
 	three := [][]Msg{{unmet}, {unmet}, {unmet}}
-
-	one := [][]Msg{{unmet}}
 	seen := Msg{Met: bits(KPingback)}
 	fte := FilterTE(Leaf(KFailure), Leaf(KFailure)).Number()
 	viaTrue := Msg{Sel: 1 << uint(fte.ID)}
+	gg := Group(Group(Leaf(KFailure)), Leaf(KFailure))
+	mixed := Group(Leaf(KPingback), Leaf(KFailure), Leaf(KStatus))
 
-	// a verifier directly under the configurable modifier
-	add(Conc{Name: "failure/2x1+query", Tree: Leaf(KFailure), Threads: two, Queries: 1})
-	add(Conc{Name: "failure/1x1+query+reset", Tree: Leaf(KFailure), Prime: []Msg{unmet}, Threads: one, Queries: 1, Reset: true})
-	add(Conc{Name: "failure/1x2+query", Tree: Leaf(KFailure), Threads: [][]Msg{{unmet, unmet}}, Queries: 1})
-	// both sides of one verifier
-	add(Conc{Name: "header/1x1+query+reset", Tree: Leaf(KHeader), Prime: []Msg{unmet}, Threads: one, Queries: 1, Reset: true})
-	// nested groups (flattening)
-	add(Conc{Name: "group(group(failure),failure)/1x1req+query", Tree: Group(Group(Leaf(KFailure)), Leaf(KFailure)), Threads: one, ReqOnly: true, Queries: 1})
-	// filters: one thread through each branch
-	add(Conc{Name: "filterTE(failure,failure)/2x1req+query", Tree: fte, Threads: [][]Msg{{viaTrue}, {unmet}}, ReqOnly: true, Queries: 1})
-	// response-side verifier in an else branch / true branch
+	// ---- complete explorations: pairs of threads and small triples ----
+	add(Conc{Name: "failure/1x1+query", Tree: Leaf(KFailure), Threads: one, Queries: 1})
+	add(Conc{Name: "failure/2x1req", Tree: Leaf(KFailure), Threads: two, ReqOnly: true})
+	add(Conc{Name: "failure/1x1req+reset", Tree: Leaf(KFailure), Prime: []Msg{unmet}, Threads: one, ReqOnly: true, Reset: true})
+	add(Conc{Name: "failure/prime+query+reset", Tree: Leaf(KFailure), Prime: []Msg{unmet}, Queries: 1, Reset: true})
+	add(Conc{Name: "failure/1x2req+query", Tree: Leaf(KFailure), Threads: [][]Msg{{unmet, unmet}}, ReqOnly: true, Queries: 1})
+	add(Conc{Name: "header/1x1+query", Tree: Leaf(KHeader), Threads: one, Queries: 1})
+	add(Conc{Name: "status/1x1+query", Tree: Leaf(KStatus), Threads: one, Queries: 1})
+	add(Conc{Name: "group(failure)/1x1req+query", Tree: Group(Leaf(KFailure)), Threads: one, ReqOnly: true, Queries: 1})
+	add(Conc{Name: "filterTE(failure,failure)/2x1req", Tree: fte, Threads: [][]Msg{{viaTrue}, {unmet}}, ReqOnly: true})
 	add(Conc{Name: "filterE(status)/prime+query+reset", Tree: FilterE(Leaf(KStatus)), Prime: []Msg{unmet}, Queries: 1, Reset: true})
 	add(Conc{Name: "filterT(status)/prime+query+reset", Tree: FilterT(Leaf(KStatus)), Prime: []Msg{{Sel: 1}}, Queries: 1, Reset: true})
-	// an API request racing with a counted one
-	add(Conc{Name: "url/api+plain+query", Tree: Leaf(KURL), Threads: [][]Msg{{{API: true}}, {unmet}}, ReqOnly: true, Queries: 1})
-	// pingback: sighting vs query vs reset
-	add(Conc{Name: "pingback/2x1req+query", Tree: Leaf(KPingback), Threads: [][]Msg{{seen}, {unmet}}, ReqOnly: true, Queries: 1})
+	add(Conc{Name: "url/api+plain", Tree: Leaf(KURL), Threads: [][]Msg{{{API: true}}, {unmet}}, ReqOnly: true})
+	add(Conc{Name: "pingback/1x1req+query", Tree: Leaf(KPingback), Threads: [][]Msg{{seen}}, ReqOnly: true, Queries: 1})
 	add(Conc{Name: "pingback/1x1req+query+reset", Tree: Leaf(KPingback), Prime: []Msg{seen}, Threads: [][]Msg{{seen}}, ReqOnly: true, Queries: 1, Reset: true})
 
-	// thorough tier
-	add(Conc{Name: "failure/2x1req+query+reset", Tree: Leaf(KFailure), Prime: []Msg{unmet}, Threads: two, ReqOnly: true, Queries: 1, Reset: true, Heavy: true})
-	add(Conc{Name: "failure/2x2req+query", Tree: Leaf(KFailure), Threads: twoTwo, ReqOnly: true, Queries: 1, Heavy: true})
-	add(Conc{Name: "failure/3x1req+query", Tree: Leaf(KFailure), Threads: three, ReqOnly: true, Queries: 1, Heavy: true})
-	add(Conc{Name: "failure/1x1+2query", Tree: Leaf(KFailure), Threads: one, Queries: 2, Heavy: true})
-	add(Conc{Name: "header/2x1+query", Tree: Leaf(KHeader), Threads: two, Queries: 1, Heavy: true})
-	add(Conc{Name: "status/2x1+query", Tree: Leaf(KStatus), Threads: two, Queries: 1, Heavy: true})
-	add(Conc{Name: "group(failure,failure)/1x1req+query+reset", Tree: Group(Leaf(KFailure), Leaf(KFailure)), Prime: []Msg{unmet}, Threads: one, ReqOnly: true, Queries: 1, Reset: true, Heavy: true})
+	// ---- the design's 3-4 thread scenarios, complete up to the preemption bound ----
+	add(Conc{Name: "failure/2x1+query", Tree: Leaf(KFailure), Threads: two, Queries: 1, Preempt: pb})
+	add(Conc{Name: "failure/2x1+query+reset", Tree: Leaf(KFailure), Prime: []Msg{unmet}, Threads: two, Queries: 1, Reset: true, Preempt: pb})
+	add(Conc{Name: "failure/2x2+query", Tree: Leaf(KFailure), Threads: twoTwo, Queries: 1, Preempt: pb})
+	add(Conc{Name: "header/2x1+query+reset", Tree: Leaf(KHeader), Prime: []Msg{unmet}, Threads: two, Queries: 1, Reset: true, Preempt: pb})
+	add(Conc{Name: "group(group(failure),failure)/2x1+query", Tree: gg, Threads: two, Queries: 1, Preempt: pb})
+	add(Conc{Name: "filterTE(failure,failure)/2x1+query+reset", Tree: fte, Prime: []Msg{viaTrue, unmet}, Threads: [][]Msg{{viaTrue}, {unmet}}, Queries: 1, Reset: true, Preempt: pb})
+	add(Conc{Name: "filterE(status)/2x1+query+reset", Tree: FilterE(Leaf(KStatus)), Prime: []Msg{unmet}, Threads: two, Queries: 1, Reset: true, Preempt: pb})
+	add(Conc{Name: "pingback/2x1+query+reset", Tree: Leaf(KPingback), Prime: []Msg{seen}, Threads: [][]Msg{{seen}, {unmet}}, Queries: 1, Reset: true, Preempt: pb})
+	add(Conc{Name: "group(pingback,failure,status)/2x2+query+reset", Tree: mixed, Prime: []Msg{unmet}, Threads: [][]Msg{{seen, unmet}, {unmet, seen}}, Queries: 1, Reset: true, Preempt: pb})
+	add(Conc{Name: "status/3x1+2query+reset", Tree: Leaf(KStatus), Prime: []Msg{unmet}, Threads: three, Queries: 2, Reset: true, Preempt: pb, Heavy: true})
+
+	// ---- thorough tier: complete explorations of mid-sized triples ----
+	add(Conc{Name: "failure/2x1req+query", Tree: Leaf(KFailure), Threads: two, ReqOnly: true, Queries: 1, Heavy: true})
+	add(Conc{Name: "failure/1x1+query+reset", Tree: Leaf(KFailure), Prime: []Msg{unmet}, Threads: one, Queries: 1, Reset: true, Heavy: true})
+	add(Conc{Name: "failure/1x1req+2query", Tree: Leaf(KFailure), Threads: one, ReqOnly: true, Queries: 2, Heavy: true})
+	add(Conc{Name: "header/1x1req+query+reset", Tree: Leaf(KHeader), Prime: []Msg{unmet}, Threads: one, ReqOnly: true, Queries: 1, Reset: true, Heavy: true})
+	add(Conc{Name: "group(group(failure),failure)/1x1req+query", Tree: gg, Threads: one, ReqOnly: true, Queries: 1, Heavy: true})
 	add(Conc{Name: "filterTE(failure,failure)/1x1req+query+reset", Tree: fte, Prime: []Msg{viaTrue, unmet}, Threads: one, ReqOnly: true, Queries: 1, Reset: true, Heavy: true})
-	add(Conc{Name: "filterE(status)/1x1+query+reset", Tree: FilterE(Leaf(KStatus)), Prime: []Msg{unmet}, Threads: one, Queries: 1, Reset: true, Heavy: true})
-	add(Conc{Name: "filterT(status)/1x1+query+reset", Tree: FilterT(Leaf(KStatus)), Prime: []Msg{{Sel: 1}}, Threads: [][]Msg{{{Sel: 1}}}, Queries: 1, Reset: true, Heavy: true})
-	add(Conc{Name: "pingback/2x1req+query+reset", Tree: Leaf(KPingback), Prime: []Msg{seen}, Threads: [][]Msg{{seen}, {unmet}}, ReqOnly: true, Queries: 1, Reset: true, Heavy: true})
-	add(Conc{Name: "group(pingback,failure)/1x1req+query", Tree: Group(Leaf(KPingback), Leaf(KFailure)), Threads: [][]Msg{{seen}}, ReqOnly: true, Queries: 1, Heavy: true})
+	add(Conc{Name: "filterE(status)/1x1+query", Tree: FilterE(Leaf(KStatus)), Threads: one, Queries: 1, Heavy: true})
+	add(Conc{Name: "url/api+plain+query", Tree: Leaf(KURL), Threads: [][]Msg{{{API: true}}, {unmet}}, ReqOnly: true, Queries: 1, Heavy: true})
+	add(Conc{Name: "pingback/2x1req+query", Tree: Leaf(KPingback), Threads: [][]Msg{{seen}, {unmet}}, ReqOnly: true, Queries: 1, Heavy: true})
 	return out
 }
